@@ -3,6 +3,7 @@ import itertools
 import json
 import os
 import random
+import re
 from vlib import *
 
 SD = os.path.join(SPEC, "mwmerge")
@@ -57,6 +58,39 @@ def gen_inputs(ctx, rng, quick):
     return lines
 
 
+def extract_tables(path):
+    """the comparison-operator tables of the unrolled 3-way / 4-way merges, read from the source"""
+    src = read_text(path)
+    t3 = re.findall(r"TLX_MERGE3CASE\((\d), (\d), (\d), (<=?), (<=?)\);", src)
+    t4 = re.findall(r"TLX_MERGE4CASE\((\d), (\d), (\d), (\d), (<=?), (<=?), (<=?)\);", src)
+    if len(t3) != 6 or len(t4) != 24:
+        raise InternalError("could not extract the TLX_MERGE3CASE / TLX_MERGE4CASE tables from %s (%d / %d rows)" % (path, len(t3), len(t4)))
+    def rows(t, k):
+        return " @@ ".join("<<%s>> :> <<%s>>" % (", ".join(r[:k]), ", ".join('"%s"' % o for o in r[k:])) for r in t)
+    return ("---- MODULE MergeCaseTables ----\n\\* extracted from %s by tools/props/c05.py\nEXTENDS TLC\nTable3 == %s\nTable4 == %s\n====\n" %
+            (os.path.relpath(path, REPO), rows(t3, 3), rows(t4, 4)))
+
+
+def unrolled_variants(ctx, quick):
+    """MergeCaseI: the goto machines of multiway_merge_3_variant / _4_variant with the operator tables of the current source"""
+    from vlib import _prep_spec_dir
+    d = _prep_spec_dir(ctx, SD)
+    open(os.path.join(d, "MergeCaseTables.tla"), "w").write(extract_tables(os.path.join(REPO, "tlx/algorithm/multiway_merge.hpp")))
+    CFG = "CONSTANTS K = %d\n Keys = {1, 2}\n MaxLen = %d\nSPECIFICATION Spec\nINVARIANT EmitsStableMerge\nCHECK_DEADLOCK FALSE\n"
+    for (k, ml) in ([(3, 3), (4, 2)] if quick else [(3, 4), (4, 3)]):
+        r = tlc_mc(ctx, SD, "MergeCaseI", "mc_mergecase_%d.cfg" % k, workers=NCPU, coverage=False, timeout=6000, xmx="12g", expect_ok=False, cfg_text=CFG % (k, ml))
+        if r["ok"]:
+            ctx.add_model_run(r)
+        elif "Invariant EmitsStableMerge is violated" in r["out"]:
+            # the tables come from the code under test: this is a verdict on the code
+            ms = re.findall(r"seqs = (<<.*>>)", r["out"])
+            m = re.match(r"(.*)", ms[-1]) if ms else None
+            ctx.violation("merge/unrolled-%d-way" % k, "multiway_merge_%d_variant: with the comparison operators of the source's TLX_MERGE%dCASE table the goto machine does not emit "
+                          "the stable merge (TLC counterexample: seqs = %s)" % (k, k, m.group(1)[:200] if m else "?"))
+        else:
+            raise InternalError("TLC model check MergeCaseI failed (rc=%s):\n%s" % (r["rc"], r["out"][-3000:]))
+
+
 def run(ctx):
     quick = ctx.tier == "quick"
     rng = random.Random(ctx.seed)
@@ -65,6 +99,7 @@ def run(ctx):
                        "4 algorithms with element size / comparator / front end rotating; non-trivial = total size >= 2; distinct by content")
     tlc_mc(ctx, SD, "MergeA", "mc_merge_run.cfg", workers=8, timeout=3000,
            cfg_text="CONSTANTS MaxK = %d\n MaxLen = %d\n Keys = {1,2}\nSPECIFICATION Spec\nINVARIANTS OutSorted SmallestTaken AdvanceExact StableOrder\nCHECK_DEADLOCK FALSE\n" % ((3, 2) if quick else (4, 2)))
+    unrolled_variants(ctx, quick)
     lines = gen_inputs(ctx, rng, quick)
     for ln in lines:
         ctx.count_case(ln, nontrivial=len(ln.split()) > 4)
